@@ -10,7 +10,7 @@ from .. import sandbox  # noqa
 
 LEVEL = 'exploration'
 RULE = (
-    'complete grid: lengths 0..64 and {100,1000,100000} x 4 (initial,final) pairs x offsets {0,5,2^40 where representable} '
+    'complete grid: lengths 0..64 and {100,1000,100000} x 4 (initial,final) pairs x offsets {0,5,2^40 where representable; 0.5 and -1.25 for float outputs} '
     'x dtype pairs (i4->i4,u4->u8,i8->i8,f4->f8,f8->f8,list->i8,list->u8) x out length N_out, N_out-1, N_out+1; '
     'a case is (dtype pair, N, flags, offset, outlen delta); non-trivial = distinct (dtype pair, N, flags) with N_out>=0; '
     'each case run in the production build with canaries and in the bounds-sanitized build'
@@ -31,7 +31,7 @@ def lengths(run):
 
 
 def ref_selected(vals, offset, initial, final):
-    P = [int(offset)]
+    P = [offset if isinstance(offset, float) else int(offset)]
     for v in vals:
         P.append(P[-1] + int(v))
     N = len(vals)
@@ -70,9 +70,11 @@ def group_case(case):
             vals = rng.integers(-1000, 1000, N).astype(din)
         for initial in (False, True):
             for final in (False, True):
-                for offset in (0, 5, 2**40):
+                for offset in (0, 5, 2**40, 0.5, -1.25):
                     if offset == 2**40 and dout == 'i4':
                         continue
+                    if isinstance(offset, float) and dout[0] != 'f':
+                        continue  # a fractional start is only meaningful for a floating-point output
                     if dout[0] == 'u':
                         vv = [abs(int(v)) for v in vals]
                     else:
@@ -201,6 +203,22 @@ def check(run):
         run.nt(('strided', N, initial, final))
         if [int(x) for x in out] != sel or int(tot) != total or not np.array_equal(obuf[mask], keep[mask]):
             run.violation('cumsum-strided-views', dict(N=N, initial=initial, final=final, got=[int(x) for x in out][:6], expected=sel[:6], untouched_elements_changed=bool(not np.array_equal(obuf[mask], keep[mask]))))
+    # chaining: the returned total of one call is the offset of the next (how per-file offsets are accumulated); with values on a
+    # 1/8 lattice every float sum is exact, so two chained calls must equal one cumulative sum of the concatenation
+    r3 = run.rng(7)
+    for t in range(60 if run.quick else 2000):
+        n1, n2 = int(r3.integers(1, 30)), int(r3.integers(1, 30))
+        dt = [np.float64, np.float32][t % 2]
+        a = (r3.integers(-80, 80, n1 + n2) / 8.0).astype(dt)
+        off0 = float(r3.integers(-40, 40)) / 8.0
+        o1, o2 = np.full(n1, np.nan), np.full(n2, np.nan)
+        run.ev()
+        run.nt(('chained', n1, n2, t % 2))
+        t1 = _cs(a[:n1], o1, offset=off0)
+        t2 = _cs(a[n1:], o2, offset=t1)
+        ref = off0 + np.cumsum(a.astype(np.float64))
+        if not (np.array_equal(np.concatenate([o1, o2]), ref) and float(t1) == ref[n1 - 1] and float(t2) == ref[-1]):
+            run.violation('cumsum-fractional-offset', dict(n1=n1, n2=n2, offset=off0, total1=float(t1), expected_total1=float(ref[n1 - 1]), total2=float(t2), expected_total2=float(ref[-1]), dtype=np.dtype(dt).str))
     # the helper as used by hod/menv.concat_to_arr (list of neighbour lists, some of them empty)
     from abacusnbody.hod import menv
 
